@@ -267,6 +267,11 @@ func (r *Run) Finish(rule string) {
 	seenKind := map[string]bool{}
 	var replayPaths []string
 	if r.Replay == "" {
+		if old, _ := filepath.Glob(filepath.Join(VerifDir, "replays", r.Prop+"-*.json")); len(old) > 0 {
+			for _, f := range old {
+				os.Remove(f)
+			}
+		}
 		for _, v := range unlisted {
 			if seenKind[v.Kind] {
 				continue
